@@ -49,6 +49,7 @@ func renderedWeights(p *pipeline.Pipeline, backendPrefix string) (map[string]int
 // that reference them, an ingress with the blue/green annotations (with or without a
 // header selector, which labels the servers). It returns the rendered weight per endpoint.
 func runBGRendered(dir string, in bgInput, selector bool) ([]int, bool) {
+	in.deriveGroups()
 	os.RemoveAll(dir)
 	p, err := pipeline.NewE(pipeline.Options{Dir: dir, WatchWithoutClass: true})
 	if err != nil {
@@ -68,6 +69,12 @@ func runBGRendered(dir string, in bgInput, selector bool) ([]int, bool) {
 			for _, g := range e.Groups {
 				labels[fmt.Sprintf("g%d", g)] = "y"
 			}
+			if len(in.Labels) > 0 {
+				labels = map[string]string{"app": "app"}
+				for k, v := range e.PodLabels {
+					labels[k] = v
+				}
+			}
 			labels["sel"] = fmt.Sprintf("s%d", i)
 			objs = append(objs, &api.Pod{ObjectMeta: metav1.ObjectMeta{Namespace: "ns1", Name: name, Labels: labels},
 				Status: api.PodStatus{PodIP: ip}})
@@ -84,7 +91,11 @@ func runBGRendered(dir string, in bgInput, selector bool) ([]int, bool) {
 	objs = append(objs, p.GlobalConfigMap(map[string]string{"drain-support": "true"}))
 	var parts []string
 	for i, w := range in.Weights {
-		parts = append(parts, fmt.Sprintf("g%d=y=%d", i, w))
+		if len(in.Labels) > 0 {
+			parts = append(parts, fmt.Sprintf("%s=%s=%d", in.Labels[i][0], in.Labels[i][1], w))
+		} else {
+			parts = append(parts, fmt.Sprintf("g%d=y=%d", i, w))
+		}
 	}
 	mode := "deploy"
 	if in.Pod {
